@@ -106,6 +106,7 @@ class Resource:
         self.paths = set()
         self.fail = "null"
         self.out_pred = None
+        self.path_stores = {}
 
 
 def _close_identity(fn, P, res):
@@ -135,15 +136,31 @@ def _close_identity(fn, P, res):
                 if p not in res.paths:
                     res.paths.add(p)
                     changed = True
+                res.path_stores.setdefault(p, []).append(i)
             elif i.op == "load" and i.res not in res.regs:
                 p = P.path(i.ops[0])
-                if p in res.paths and _loadable_alias(i, res):
+                if p in res.paths and _loadable_alias(fn, i, res, p):
                     res.regs.add(i.res)
                     changed = True
 
 
-def _loadable_alias(load, res):
-    return True
+def _loadable_alias(fn, load, res, p):
+    """a load of location p carries the resource only if a store of the resource to p can reach it (paths named by the
+    acquisition itself, e.g. an out-parameter slot, always qualify)"""
+    stores = res.path_stores.get(p)
+    if not stores:
+        return True
+    cfg = cfg_of(fn)
+    for s in stores:
+        if s.block is load.block:
+            if s.idx < load.idx:
+                return True
+            # same block, store later: reachable only around a loop
+            if load.block in cfg.reachable_from(s.block) and any(load.block in cfg.reachable_from(x) for x in s.block.succs):
+                return True
+        elif load.block in cfg.reachable_from(s.block):
+            return True
+    return False
 
 
 def is_res(res, v):
@@ -245,7 +262,30 @@ class Engine:
             if s is None:
                 exits.append((b.term, st))
         self.instate = instate
+        self.outedge = outedge
         return problems, exits
+
+    def run_by_return_value(self, res):
+        """[(return operand for that edge, state, ret instr)]: the state with which each value reaches the function's return"""
+        self.run(res, (), init=["O"])
+        fn = self.fn
+        out = []
+        for b in fn.blocks.values():
+            t = b.term
+            if t.op != "ret":
+                continue
+            v = t.ops[0] if t.ops else None
+            d = fn.defs.get(v.v) if v is not None and v.kind == "reg" else None
+            if d is not None and d.op == "phi" and d.block is b and all(i.op in ("phi", "ret") for i in b.instrs):
+                for val, lab in d.x["incoming"]:
+                    st = self.outedge.get((fn.blocks[lab], b))
+                    if st:
+                        out.append((val, st, t))
+            else:
+                st = self.outedge.get((b, None))
+                if st:
+                    out.append((v, st, t))
+        return out
 
     @staticmethod
     def _map(st, m):
